@@ -44,6 +44,9 @@ HAND_VALID = [
     "subroutine s\n  use a\n  y = max(1, 2, 3)\nend subroutine s\nfunction f()\n  integer :: max\n  f = max(1)\nend function f\n",
     "module m\n  integer :: abs\ncontains\n  function g(x)\n    g = abs(x)\n  contains\n    subroutine h\n      real :: sqrt\n      z = sqrt(2) + abs(1)\n    end subroutine h\n  end function g\nend module m\n",
 ]
+# references to names that are intrinsics only in Fortran 2008 (valid under both standards; printed in upper case
+# only by the 2008 parser)
+HAND_VALID.append("program p\n  y = gamma(x) + erf(z)\n  k = shiftl(i, 2) + shiftr(j, 1) + shifta(m, 3)\nend program p\n")
 HAND_INVALID = [
     # intrinsic argument count -> InternalSyntaxError inside a unit
     "subroutine s\n  x = sin(1, 2, 3)\nend subroutine s\n",
@@ -236,14 +239,14 @@ def worker_finish():
 
 
 # ----------------------------------------------------------------- cases
-ALPHABET = [("create", "f2003"), ("create", "f2008"), ("parse", "valid", 0), ("parse", "valid", 4), ("parse", "valid", 6),
+ALPHABET = [("create", "f2003"), ("create", "f2008"), ("parse", "valid", 0), ("parse", "valid", 4), ("parse", "valid", 7),
             ("parse", "invalid", 0), ("parse", "invalid", 1), ("parse", "invalid", 2), ("parse", "f08", 16),
             ("parse", "f08", 5)]
 FINALS = [("f2003", "valid", 0, {}), ("f2003", "valid", 1, {}), ("f2008", "valid", 4, {}), ("f2003", "valid", 3, {}),
           ("f2003", "invalid", 4, {}), ("f2003", "valid", 5, {}), ("f2008", "valid", 6, {"ignore_comments": False}),
           ("f2003", "f08", 16, {}), ("f2003", "f08", 1, {}), ("f2008", "f08", 16, {}), ("f2003", "f08", 8, {}),
           ("f2003", "f08", 0, {}), ("f2003", "f08", 5, {}), ("f2008", "f08", 3, {}), ("f2003", "f08", 6, {}),
-          ("f2003", "f08", 17, {})]
+          ("f2003", "f08", 17, {}), ("f2008", "valid", 7, {}), ("f2003", "valid", 7, {})]
 
 
 def n_enum(maxlen):
